@@ -47,8 +47,10 @@ Proof.
     now rewrite <- app_assoc.
 Qed.
 
+Lemma arch_named_ok n i : arch_ok n = true -> arch_named n i = Ok (parse_arch n, i).
+Proof. unfold arch_named. now intros ->. Qed.
 Lemma multiarch_word : forall w name rest, forallb mac w = true -> multiarch_stop (peek rest) = true ->
-  multiarch_loop name (w ++ rest) = (parse_arch (name ++ w), rest).
+  multiarch_loop name (w ++ rest) = arch_named (name ++ w) rest.
 Proof.
   induction w as [|c w IH]; intros name rest H Hs.
   - cbn [app]. rewrite app_nil_r. destruct rest as [|c r]; [reflexivity|]. cbn in Hs. cbn. now rewrite Hs.
@@ -68,7 +70,7 @@ Qed.
 
 Lemma arch_name_word : forall w name rest, forallb archc w = true ->
   (eqc (peek rest) 93 || is_ws (peek rest) = true) -> rest <> [] ->
-  arch_name_loop name (w ++ rest) = Ok (parse_arch (name ++ w), rest).
+  arch_name_loop name (w ++ rest) = arch_named (name ++ w) rest.
 Proof.
   induction w as [|c w IH]; intros name rest H Hs Hne.
   - cbn [app]. rewrite app_nil_r. destruct rest as [|c r]; [congruence|]. cbn in Hs. cbn [arch_name_loop].
@@ -139,7 +141,8 @@ Definition arch_tok (nt : bool) (e : arch) : str := (if nt then [ch 33] else [])
 Record wf_archent (nt : bool) (e : arch) : Prop := {
   wa_chars : forallb archc (arch_string e) = true;
   wa_ne : nt = false -> arch_string e <> [];
-  wa_rt : parse_arch (arch_string e) = e }.
+  wa_rt : parse_arch (arch_string e) = e;
+  wa_ok : arch_ok (arch_string e) = true }.
 
 Lemma tok_headok nt e rest : wf_archent nt e -> headok (arch_tok nt e ++ rest).
 Proof.
@@ -155,7 +158,7 @@ Lemma parse_one_arch_render nt acc e rest :
   parse_one_arch {| a_not := (match acc with [] => false | _ => nt end); a_list := acc |} (arch_tok nt e ++ rest)
   = Ok ({| a_not := nt; a_list := acc ++ [e] |}, rest).
 Proof.
-  intros W _ Hs Hne. pose proof (tok_headok nt e rest W) as HO. destruct W as [Hc Hn Hrt].
+  intros W _ Hs Hne. pose proof (tok_headok nt e rest W) as HO. destruct W as [Hc Hn Hrt Hok].
   unfold parse_one_arch. rewrite (eat_ws_id _ HO). unfold arch_tok in *. cbn [a_list a_not].
   assert (HN : eqc (peek ((if nt then [ch 33] else []) ++ arch_string e ++ rest)) 33 = nt).
   { destruct nt; [reflexivity|]. cbn [app]. destruct (arch_string e) as [|c r]; [now specialize (Hn eq_refl)|].
@@ -167,7 +170,7 @@ Proof.
   rewrite Hadv.
   assert (Hchk : match acc with [] => Some nt | _ :: _ => if Bool.eqb (match acc with [] => false | _ => nt end) nt then Some (match acc with [] => false | _ => nt end) else None end = Some nt).
   { destruct acc; [reflexivity|]. destruct nt; reflexivity. }
-  rewrite Hchk. rewrite (arch_name_word (arch_string e) [] rest Hc Hs Hne). cbn [app]. now rewrite Hrt.
+  rewrite Hchk. rewrite (arch_name_word (arch_string e) [] rest Hc Hs Hne). cbn [app]. rewrite (arch_named_ok _ _ Hok). now rewrite Hrt.
 Qed.
 
 (* the whole bracketed list *)
@@ -367,7 +370,7 @@ Record wf_possi (p : possi) : Prop := {
   wp_chars : forallb namec (p_name p) = true;
   wp_dollar : eqc (peek (p_name p)) 36 = false;
   wp_arch : match p_arch p with None => True
-            | Some a => forallb mac (arch_string a) = true /\ parse_arch (arch_string a) = a end;
+            | Some a => forallb mac (arch_string a) = true /\ parse_arch (arch_string a) = a /\ arch_ok (arch_string a) = true end;
   wp_archs : exists a, p_archs p = Some a /\ (a_list a = [] -> a_not a = false) /\ Forall (wf_archent (a_not a)) (a_list a);
   wp_ver : match p_ver p with None => True | Some v => wf_ver v end;
   wp_stages : Forall (fun st => st <> [] /\ Forall wf_stage st) (p_stages p) }.
@@ -521,14 +524,14 @@ Proof.
     with ((c0 :: n0) ++ (match p_arch p with Some a => ch 58 :: arch_string a | None => [] end) ++ ctl_text p ++ rest).
   rewrite (possi_loop_name (c0 :: n0) g fresh rel _ Hc). cbn [p_name fresh app].
   destruct (p_arch p) as [a|] eqn:Ea.
-  - destruct Ha as [Hm Hrt]. destruct g as [|g]; [lia|]. cbn [app possi_loop peek].
+  - destruct Ha as (Hm&Hrt&Hok). destruct g as [|g]; [lia|]. cbn [app possi_loop peek].
     change (eqc (ch 58) 58) with true. cbv iota. unfold parse_multiarch. cbn [adv tl].
     assert (Hstop : multiarch_stop (peek (ctl_text p ++ rest)) = true).
     { destruct (ctl_text_shape p W) as [[E _]|(t&E)]; rewrite E; cbn [app peek]; [|reflexivity].
       destruct (tail_ok_head rest rest' T) as [[Hw _]|[Hst _]].
       - unfold multiarch_stop. rewrite Hw. now rewrite !orb_true_r.
       - unfold multiarch_stop, stop3 in *. apply orb_true_iff in Hst as [Hst|Hst]; [apply orb_true_iff in Hst as [Hst|Hst]|]; rewrite Hst; cbn; now rewrite ?orb_true_r. }
-    rewrite (multiarch_word (arch_string a) [] _ Hm Hstop). cbn [app]. rewrite Hrt.
+    rewrite (multiarch_word (arch_string a) [] _ Hm Hstop). cbn [app]. rewrite (arch_named_ok _ _ Hok), Hrt.
     replace (set_arch (with_name fresh (c0 :: n0)) a) with (base_of p)
       by (unfold base_of, set_arch, with_name, fresh; cbn; now rewrite En, Ea).
     apply H1. lia.
